@@ -221,6 +221,35 @@ def run_trace(module, cfg, events, name, shards=8, timeout=1500, key="case", ext
     return bad, stats
 
 
+
+def gen_cases(seed, num, name="GEN", procs=8):
+    """Random documents of the faithful fragment: behaviours of the SchemaGen machine under
+    `tlc -simulate`, one CASE per finished document, duplicates removed.  The run is split over
+    `procs` single-worker TLC processes with seeds derived from `seed`, so that the set of
+    documents is a function of (seed, num) alone."""
+    per = max(1, num // procs)
+    cases, stats = [], {"generated": 0, "distinct": 0, "wall_s": 0.0, "seeds": []}
+    t0 = time.time()
+    with concurrent.futures.ThreadPoolExecutor(max_workers=procs) as ex:
+        futs = [ex.submit(run_mc, "MC_Gen.tla", "Gen_sim.cfg", "%s.%d" % (name, k), 1, 3000,
+                          "num=%d" % per, seed * 1000 + k, "-Xmx3g") for k in range(procs)]
+        for k, fu in enumerate(futs):
+            cs, st, _ = fu.result()
+            cases += cs
+            stats["generated"] += int(st.get("generated", 0))
+            stats["seeds"].append(seed * 1000 + k)
+    seen, uniq = set(), []
+    for c in cases:
+        k = json.dumps(c["calls"], sort_keys=True)
+        if k not in seen:
+            seen.add(k)
+            uniq.append(c)
+    stats["wall_s"] = round(time.time() - t0, 1)
+    stats["behaviours"] = per * procs
+    stats["documents"] = len(uniq)
+    return uniq, stats
+
+
 # ------------------------------------------------------------------ verdicts
 
 def load_known():
@@ -297,11 +326,25 @@ def finish(prop, tier, seed, t0, bad, events, cases, mc_stats, trace_stats, cove
 
 
 def main_wrapper(fn):
+    """Exit codes: 0 held, 1 VIOLATION (only ever with a VIOLATION line), 2 tool error.
+    Checks share build/ (vdrive, generated crates, TLC scratch): one check at a time holds
+    build/.lock, so that concurrent invocations queue up instead of clobbering each other."""
+    import fcntl, traceback
+    os.makedirs(BUILD, exist_ok=True)
+    lock = open(os.path.join(BUILD, ".lock"), "w")
+    fcntl.flock(lock, fcntl.LOCK_EX)
     try:
         rc = fn()
     except ToolError as e:
         print("TOOL-ERROR: %s" % e, file=sys.stderr, flush=True)
         sys.exit(2)
+    except SystemExit:
+        raise
+    except BaseException:
+        print("TOOL-ERROR: unexpected exception\n%s" % traceback.format_exc(), file=sys.stderr, flush=True)
+        sys.exit(2)
+    finally:
+        fcntl.flock(lock, fcntl.LOCK_UN)
     sys.exit(rc)
 
 
